@@ -662,11 +662,9 @@ REFINED = [
     "the driver's evaluation of the specification for huge usize arguments (fastSpecShr, fastSpecBit, fastDivPow2, fastModPow2, "
     "fastClearBit) = the specification, all arguments",
 ]
+# empty: every clause has its full theorem about the executed model, and the three pieces round 5 listed as "hand-mirrored only" (Tie A note:
+# next_power_of_two_large, Repr::ones heap arm, the `match (self, rhs)` operator dispatch) are regenerated + proved since round 6
 FRONTIER = [
-    "Tie A only (every clause of the property has its full theorem about the executed model): next_power_of_two_large (iterator "
-    "`skip_while`, outside the translators' subset), the heap arm of Repr::ones and the `match (self, rhs)` dispatch of the four "
-    "unsigned operator impls (lowest_dword shortcuts, `len0 <= len1` operand choice) are hand-mirrored — theorems about the hand model + "
-    "correspondence — not regenerated from the source text",
 ]
 
 EXPLANATION = ("Theorems (all W >= 1, all lengths, canonical operands): the IBig sign tables composed with the unsigned word loops "
@@ -728,16 +726,27 @@ THEOREMS = ["Dashu.Props.C09." + n for n in [
                                           "gen_trailing_zeros_large_shifted_by_one_empty",
                                           "gen_are_slice_low_bits_nonzero", "gen_bit_large", "gen_bit_len_large",
                                           "sum_checked_eq", "gen_count_ones_large", "gen_count_zeros_large_partial", "gen_count_zeros_large",
-                                          "gen_is_power_of_two_large"]] + [
+                                          "gen_is_power_of_two_large", "tzLarge_le", "tzLargeShiftedByOne_succ_le",
+                                          "gen_trailing_ones_neg_large", "gen_trailing_ones_neg_large_empty"]] + [
     "Dashu.Props.GenBitsMixed." + n for n in ["core_or", "core_xor", "gen_mixed_or_xor", "ubig_as_ibig", "mixed_or_xor"]] + [
     "Dashu.Props.C09." + n for n in ["ibig_trailing_zeros_bits", "ibig_trailing_ones_bits"]] + [
     "Dashu.Props.GenShiftHeap." + n for n in ["gen_shl_one_spilled", "gen_shl_dword_spilled", "gen_shl_dword_spilled_arms",
                                               "gen_shl_large_ref", "gen_shl_large", "gen_shr_large", "gen_shr_large_ref",
-                                              "gen_shr_heap_forms"]] + [
+                                              "gen_shr_heap_forms", "gen_shl_dword_repr"]] + [
     "Dashu.Props.GenBitsHeap." + n for n in ["gen_with_bit_dword_spilled", "gen_with_bit_large", "gen_clear_high_bits_large",
-                                             "gen_clear_bit_large", "gen_split_bits_large"]] + [
+                                             "gen_clear_bit_large", "gen_split_bits_large", "gen_set_bit_small", "gen_set_bit"]] + [
     "Dashu.Props.GenBitOpsHeap." + n for n in ["gen_bitand_large", "gen_bitor_large", "gen_bitxor_large", "gen_and_not_large",
-                                               "gen_large_dword", "gen_large_dword_short", "gen_heap_heap_arms"]]
+                                               "gen_large_dword", "gen_large_dword_short", "gen_heap_heap_arms"]] + [
+    "Dashu.Props.GenReprOnes." + n for n in ["gen_repr_ones", "gen_repr_ones_boundary"]] + [
+    "Dashu.Props.GenBitDispatch." + n for n in ["lowest_dword_eq", "lowest_dword_short", "zipAnd_comm", "zipOr_comm", "zipXor_comm",
+                                                "bitand_comm", "bitor_comm", "bitxor_comm", "gen_bitand_dispatch", "gen_bitor_dispatch",
+                                                "gen_bitxor_dispatch", "gen_and_not_dispatch"]] + [
+    "Dashu.Props.GenNextPow2." + n for n in ["skip_zero", "gen_next_power_of_two_large", "gen_next_power_of_two_large_empty",
+                                             "gen_next_power_of_two"]] + [
+    "Dashu.Props.GenIntBits." + n for n in ["gen_ibig_bit", "gen_ibig_trailing_zeros", "gen_ibig_trailing_ones", "gen_ibig_not",
+                                            "gen_ibig_not_bits", "specK_meets", "modelK_meets", "model_ibig_bit",
+                                            "model_ibig_trailing"]] + [
+    "Dashu.Props.GenShiftDispatch." + n for n in ["gen_shl_dispatch", "gen_shr_dispatch"]]
 
 # Tie A: the IBig bit-operator sign tables are regenerated from integer/src/bits.rs on every run
 # (lean/Dashu/Gen/Glue.lean) and proved equal to the same specification as the hand model's tables
@@ -792,6 +801,29 @@ GEN_AUDIT += ["Dashu.Audit.GenBitsHeap"]
 # Tie A, word loops of the unsigned bit operators: bitand_large, bitor_large, bitxor_large, and_not_large, *_large_dword of bits.rs
 GEN_PROPS += ["Dashu.Props.GenBitOpsHeap"]
 GEN_AUDIT += ["Dashu.Audit.GenBitOpsHeap"]
+# Tie A, Repr::ones of repr.rs IN FULL (round 6): inline arms, lo_words / hi_bits, the checked allocation request, push_repeat::<{ Word::MAX }>,
+# the conditional top word and the transmute into the heap value (no normalisation) = reprOnes (the executed model) for every usize n
+GEN_PROPS += ["Dashu.Props.GenReprOnes"]
+GEN_AUDIT += ["Dashu.Audit.GenReprOnes"]
+# Tie A, operator dispatch (round 6): the sixteen impls BitAnd|BitOr|BitXor|AndNot<TypedRepr|TypedReprRef> for TypedRepr|TypedReprRef of bits.rs —
+# match arms, lowest_dword shortcuts, callee + operand order, `len0 <= len1` / `>=` operand choice, `rhs.op(self)` forwarding — regenerated over the
+# regenerated word loops (Gen/BitOpsHeap) and proved equal to TRepr.bitand / bitor / bitxor / andNot (the executed model) in every ownership form
+GEN_PROPS += ["Dashu.Props.GenBitDispatch"]
+GEN_AUDIT += ["Dashu.Audit.GenBitDispatch"]
+# Tie A, next_power_of_two (round 6): next_power_of_two_large (the skip_while / iter.next() / for-in-iter statements recognised as a whole, every
+# constant read from the source; CHECKED sub-slice and last_mut().unwrap()) and the method TypedRepr::next_power_of_two (incl. the spilled inline arm)
+# = nextPow2Large / TRepr.nextPow2 (the executed model) on every non-empty buffer
+GEN_PROPS += ["Dashu.Props.GenNextPow2"]
+GEN_AUDIT += ["Dashu.Audit.GenNextPow2"]
+# Tie A, typed translator (round 6): the sign-level bit functions of IBig — IBig::trailing_zeros, IBig::trailing_ones, <IBig as BitTest>::bit
+# (the trailing-zeros trick with `n.cmp(&zeros)`), Not for IBig / &IBig — regenerated over the record GluePrelude.BitK of the magnitude-level methods;
+# for every record meeting their specification: bit = Int.testBit, trailing_zeros / trailing_ones = 2-adic valuation of x / x + 1, !x = -x - 1
+GEN_PROPS += ["Dashu.Props.GenIntBits"]
+GEN_AUDIT += ["Dashu.Audit.GenIntBits"]
+# Tie A, << / >> (round 6): shl_dword itself (inline test `rhs <= leading_zeros`, `dword == 1`; Props/GenShiftHeap.gen_shl_dword_repr) and the four
+# impls Shl<usize> / Shr<usize> for TypedRepr / TypedReprRef (zero arm, callee per operand kind, owned vs borrowed) = TRepr.shl / TRepr.shr
+GEN_PROPS += ["Dashu.Props.GenShiftDispatch"]
+GEN_AUDIT += ["Dashu.Audit.GenShiftDispatch"]
 
 LEVEL_TEXT = ("Machine-checked Lean 4 theorems, for every word size and operand length, that the sign-case tables of & | ^ ! "
               "(also as regenerated from integer/src/bits.rs on every run) "
@@ -812,6 +844,15 @@ LEVEL_TEXT = ("Machine-checked Lean 4 theorems, for every word size and operand 
               "slice-pattern shortcuts), the heap arms of set_bit / clear_high_bits, the word loops of & | ^ and_not (+ the *_dword forms), "
               "the three trailing scans and are_slice_low_bits_nonzero with CHECKED slice accesses (panics included), the ten "
               "primitive-operand macro bodies and the sixteen UBig/IBig forwarding bodies (composed with the regenerated sign tables). "
+              "Round 6 added Repr::ones in full (inline arms, push_repeat, conditional top word, transmute without normalisation) and the "
+              "TypedRepr-level dispatch of & | ^ and_not (sixteen impls: match arms, lowest_dword shortcuts, operand order, length test, "
+              "commutative forwarding) and next_power_of_two (method + next_power_of_two_large, its iterator statements recognised as a whole with "
+              "every constant read from the source) as regenerated text proved equal to the executed model: the three pieces that round 5 left "
+              "hand-mirrored only are closed. Also round 6: the heap arm of trailing_ones_neg, shl_dword itself (inline test and arm selection), the "
+              "four Shl/Shr<usize> impls on TypedRepr/TypedReprRef, TypedRepr::set_bit (inline arm + method), and the sign-level functions of IBig "
+              "(trailing_zeros, trailing_ones, BitTest::bit with its trailing-zeros trick, Not for IBig/&IBig) through the typed translator over a "
+              "record of the magnitude-level methods — proved to compute Int.testBit / the 2-adic valuations / -x-1 for every record meeting the "
+              "methods' specification, which the executed magnitude model is proved to meet (modelK_meets). "
               "Shift counts / bit positions up to usize::MAX are driven through every operation that is cheap there, and through the "
               "allocating ones (<<, set_bit, ones) in the two classes that are cheap (zero operand; request above Buffer::MAX_CAPACITY "
               "-> AllocTooMuch). 571 listed code arms (arm(case)) are all reached by both tiers.")
